@@ -432,7 +432,23 @@ fn stitched_case(run: &Run, case: u64) {
     // the directory becomes a symlink to a directory outside the destination
     let old = spec.clone();
     spec.retain(|p, _| !tree::is_under(p, &format!("/{dname}")));
-    let target = format!("{}{}", "../".repeat(depth), *rng.pick(&["../../outside/dir", "../../outside/dir", "../../outside/dir/sub"]));
+    let direct = format!("{}{}", "../".repeat(depth), *rng.pick(&["../../outside/dir", "../../outside/dir", "../../outside/dir/sub"]));
+    // the link leads outside directly, or only by way of something that the same restore creates
+    // AFTER it (so that it resolves nowhere at the moment it is made): a sibling link that sorts
+    // later, or a sibling directory that sorts later and a '..' out of it
+    let target = match rng.below(4) {
+        0 | 1 => direct,
+        2 => {
+            spec.insert(format!("{prefix}/\u{ff}-link"), Node::symlink(&direct));
+            run.count("stitched_links_leading_outside_by_way_of_a_later_link", 1);
+            "\u{ff}-link".to_string()
+        }
+        _ => {
+            spec.insert(format!("{prefix}/\u{ff}-dir"), Node::dir());
+            run.count("stitched_links_leading_outside_by_way_of_a_later_directory", 1);
+            format!("\u{ff}-dir/../{direct}")
+        }
+    };
     let target = target.as_str();
     // the link's own mtime: ordinary, in the last second before the epoch, at it, far from it
     let mut link = Node::symlink(target);
@@ -529,7 +545,7 @@ pub fn run(tier: Tier, replay: Option<Value>) -> i32 {
         run.par_cases(tier.pick(300, 20000), super::threads(), |c| one_successive(&run, c));
     }
     if (replay.is_none() || stitched_replay) && !successive_replay {
-        let n = tier.pick(20u64, 1500);
+        let n = tier.pick(96u64, 1500);
         if let Some(r) = &replay {
             stitched_case(&run, r["case"].as_u64().unwrap_or(0));
         } else {
